@@ -813,16 +813,20 @@ func checkPowerLevelEventV2(sender string, createEvent PDU, oldPowerLevels, newP
 
 // checkPowerLevelEventV3 is V2 and checking that the creators don't appear in the PL users map
 func checkPowerLevelEventV3(sender string, createEvent PDU, oldPowerLevels, newPowerLevels PowerLevelContent) error {
-	if err := checkPowerLevelEventV2(sender, createEvent, oldPowerLevels, newPowerLevels); err != nil {
-		return err
-	}
-	// Enforce the creator does not appear in the users map
 	var content CreateContent
 	if err := json.Unmarshal(createEvent.Content(), &content); err != nil {
 		return errorf("checkPowerLevelEventV3 unparseable create event content: %s", err.Error())
 	}
 	creators := []string{string(createEvent.SenderID())}
 	creators = append(creators, content.AdditionalCreators...)
+	// Creators outrank every level but cannot be listed in the users map, so the V2 check,
+	// which reads the sender's level from that map, only applies to everybody else.
+	if !slices.Contains(creators, sender) {
+		if err := checkPowerLevelEventV2(sender, createEvent, oldPowerLevels, newPowerLevels); err != nil {
+			return err
+		}
+	}
+	// Enforce the creator does not appear in the users map
 	for userID := range newPowerLevels.Users {
 		if slices.Contains(creators, userID) {
 			return &EventValidationError{Code: 400, Message: fmt.Sprintf("new power levels event must not contain creator '%s'", userID)}
